@@ -52,6 +52,8 @@ type world struct {
 	book []*bookingpb.Model
 	pub  []*publicationpb.Model
 
+	kit *optKit // option values shared by all processes of the program (opts.go)
+
 	simple map[string][]any // the default-constructed models of the "dflt" family, by type
 	info   []*server.InfoServer
 }
@@ -62,7 +64,7 @@ var collIDs = []string{"A", "b", "C"}
 var rtrNames = []string{"n1", "n2", "n3"}
 
 func newWorld(need map[string]bool, inst int) *world {
-	w := &world{simple: map[string][]any{}}
+	w := &world{simple: map[string][]any{}, kit: newOptKit()}
 	w.root, w.cancel = context.WithCancel(context.Background())
 	for i := 0; i < inst; i++ {
 		plain := i > 0 // built with default options only
